@@ -954,6 +954,13 @@ def numpy_spellings(tree):
             if nm == "transpose" and len(n.args) == 1 and not n.keywords:
                 count[0] += 1
                 return ast.copy_location(ast.Attribute(value=n.args[0], attr="T", ctx=ast.Load()), n)
+            if nm == "square" and len(n.args) == 1 and not n.keywords:
+                # square(x) is x * x element-wise, the value of x ** 2 (the repository writes the power)
+                count[0] += 1
+                return ast.copy_location(ast.BinOp(left=n.args[0], op=ast.Pow(), right=ast.Constant(value=2)), n)
+            if nm in ("matmul", "dot") and len(n.args) == 2 and not n.keywords and nm == "matmul":
+                count[0] += 1
+                return ast.copy_location(ast.BinOp(left=n.args[0], op=ast.MatMult(), right=n.args[1]), n)
             return n
 
         def visit_Name(self, n):
@@ -976,7 +983,7 @@ def numpy_spellings(tree):
                 count[0] += 1
                 return ast.copy_location(ast.Name(id=n.attr, ctx=ast.Load()), n)
             return n
-    if not aliases and not (set(from_numpy.values()) & (_METHOD_FORM | {"transpose", "newaxis"})):
+    if not aliases and not (set(from_numpy.values()) & (_METHOD_FORM | {"transpose", "newaxis", "square", "matmul"})):
         return 0
     V().visit(tree)
     if added:
